@@ -592,3 +592,62 @@ def s_translate_loop(_ctx):
 
 SCENARIOS.append(Scenario("C13.export.loop", s_translate_loop, [(REL, "_Exporter._translate_loop"), (REL, "_Exporter._emit_assign"), (REL, "_Exporter._emit_assign.to_var"),
                                                                 (REL, "_Exporter._emit_assign.assign")], kind="evaluation"))
+
+
+def s_attribute_text(_ctx):
+    """_Exporter._translate_attributes (real source, real NodeProto): the text printed for an attribute is a Python
+    expression over the names the generated module imports (np, make_tensor, external_tensor) that EVALUATES to the
+    attribute's value — floats incl. nan / inf / -inf, lists, ints, strings (also the strings 'nan' / 'inf'), tensors."""
+    import math
+    import numpy as np
+    import onnx
+    from onnx import helper, numpy_helper
+    from contracts.c17_opsets import Agg
+    from pyvc.core import Ctx
+    exp = _exp()
+    agg = Agg()
+    cl = "C13: 'constants incl. nan/inf/negative/0-d/1-d' — 'it never emits text that is not valid Python or that denotes a different computation'"
+    cases = [("alpha", 0.5), ("alpha", float("inf")), ("alpha", float("-inf")), ("alpha", float("nan")), ("alpha", -0.0), ("floats", [1.0, float("inf")]),
+             ("floats", [float("nan")]), ("floats", [-1.5, 2.0]), ("axis", -3), ("axes", [0, -1]), ("mode", "inf"), ("mode", "nan's"), ("modes", ["inf", "linear"]),
+             ("value", np.array([float("nan"), 1.0], dtype=np.float32)), ("value", np.array(float("-inf"), dtype=np.float32)), ("value", np.array([[1, 2]], dtype=np.int64))]
+    env = {"np": np, "make_tensor": helper.make_tensor}
+    n = 0
+
+    def same(a, b):
+        if isinstance(a, float) and isinstance(b, float):
+            return (math.isnan(a) and math.isnan(b)) or (a == b and math.copysign(1, a) == math.copysign(1, b))
+        if isinstance(a, (list, tuple)) and isinstance(b, (list, tuple)):
+            return len(a) == len(b) and all(same(x, y) for x, y in zip(a, b))
+        return type(a) is type(b) and a == b
+    for name, value in cases:
+        n += 1
+        label = f"{name}={value!r}".replace("\n", " ")
+        ctx = Ctx([], {"solver_s": 0.0, "queries": 0})
+        I = Interp(ctx)
+        if isinstance(value, np.ndarray):
+            node = helper.make_node("Op", [], ["y"], **{name: numpy_helper.from_array(value, "t")})
+        else:
+            node = helper.make_node("Op", [], ["y"], **{name: value})
+        ex = exp._Exporter(rename=False, use_operators=False, inline_const=False, skip_initializers=False)
+        try:
+            text = I.run_closure(I.closure_of(exp._Exporter._translate_attributes), [ex, node], {})
+            k, _, v = text.partition("=")
+            got = eval(v, dict(env))
+            if isinstance(value, np.ndarray):
+                arr = numpy_helper.to_array(got)
+                ok = arr.dtype == value.dtype and arr.shape == value.shape and np.array_equal(arr, value, equal_nan=True)
+            elif isinstance(value, float) or (isinstance(value, list) and value and isinstance(value[0], float)):
+                # a FLOAT attribute is stored as float32
+                want = float(np.float32(value)) if isinstance(value, float) else [float(np.float32(x)) for x in value]
+                ok = same(got, want)
+            else:
+                ok = same(got, value)
+            detail = f"{label}: printed as {text!r}, which evaluates to {got!r}"
+        except Exception as e:  # noqa: BLE001
+            ok, detail = False, f"{label}: printed as {locals().get('text')!r}: {type(e).__name__}: {e}"
+        agg.ob("C13.export.attribute_text.evaluates_to_the_attribute_value", ok, detail, cl, case=label[:60])
+    return {"obligations": agg.obs, "paths": n, "covered": [f"attribute_cases={n}"], "notes": [], "functions": []}
+
+
+SCENARIOS.append(Scenario("C13.export.attribute_text", s_attribute_text, [(REL, "_Exporter._translate_attributes"), (REL, "_attribute_value"), (REL, "_to_str")],
+                          kind="evaluation"))
